@@ -65,6 +65,14 @@ def gen_program(rng, names=None):
 
     actors = []
 
+    def auxvia():
+        """via clause of an `aux <moot> as <tag>`: absent, `mine` (keep the moot's own via) or a path"""
+        return rng.choice(["", "", "mine", via(), via()])
+
+    def mootvia():
+        """a moot framer's own via: also framer relative (me / main: the clone's name, the main framer)"""
+        return rng.choice([via(), via(), "framer.me.res", "framer.main.res", ".mabs", "me.mm", "mv"])
+
     def actor():
         """entity of a named actor (`as <words>`) or None for the registry name"""
         if rng.random() < 0.3:
@@ -150,17 +158,17 @@ def gen_program(rng, names=None):
         "name": "F0", "kind": "active", "via": via(), "frames": [
             {"name": "a0", "over": None, "via": via(), "refs": refs(False, ["a0", "a1", "a2"], framers), "aux": None},
             {"name": "a1", "over": "a0", "via": via(), "refs": refs(False, ["a0", "a1", "a2"], framers),
-             "aux": ("M0", "c0", via())},
+             "aux": ("M0", "c0", auxvia())},
             {"name": "a2", "over": None, "via": via(), "refs": refs(False, ["a0", "a1", "a2"], framers), "aux": None},
         ]})
     spec["framers"].append({
-        "name": "M0", "kind": "moot", "via": via(), "frames": [
+        "name": "M0", "kind": "moot", "via": mootvia(), "frames": [
             {"name": "b0", "over": None, "via": via(), "refs": refs(True, ["b0", "b1"], framers), "aux": None},
             {"name": "b1", "over": "b0", "via": via(), "refs": refs(True, ["b0", "b1"], framers),
-             "aux": ("M1", "c1", via())},
+             "aux": ("M1", "c1", auxvia())},
         ]})
     spec["framers"].append({
-        "name": "M1", "kind": "moot", "via": via(), "frames": [
+        "name": "M1", "kind": "moot", "via": mootvia(), "frames": [
             {"name": "d0", "over": None, "via": via(), "refs": refs(True, ["d0", "d1"], framers), "aux": None},
             {"name": "d1", "over": "d0", "via": via(), "refs": refs(True, ["d0", "d1"], framers), "aux": None},
         ]})
@@ -294,6 +302,7 @@ def extract_ctx(act):
         overs.append(parts_of(f.inode))
         f = f.over
     levels = []
+    fchain = [framer.name]
     main = framer.main
     seen = 0
     while main:
@@ -306,6 +315,7 @@ def extract_ctx(act):
             chain.append(parts_of(m.inode))
             m = m.over
         levels.append((chain, parts_of(mainer.inode)))
+        fchain.append(mainer.name)
         main = mainer.main
         seen += 1
         if seen > 20:
@@ -321,7 +331,7 @@ def extract_ctx(act):
     return {"has_main": bool(framer.main), "actor_ok": actor_ok,
             "act_inode": None if act.inode is None else parts_of(act.inode),
             "frame_inode": parts_of(frame.inode), "overs": overs, "framer_inode": parts_of(framer.inode),
-            "levels": levels, "names": names}
+            "levels": levels, "names": names, "framer_chain": fchain}
 
 
 def probe(act, ipath):
@@ -493,4 +503,29 @@ def poke_destinations(builder):
         d = act.parms.get("destination") if act.parms else None
         if isinstance(d, storing.Share):
             out.setdefault(d.name.split(".")[-1], []).append((act, d.name))
+    return out
+
+
+def spec_framer_inodes(I, spec, names):
+    """live framer name -> Coq expression of the inode the SCRIPT gives that framer: its own via for a framer
+    written in the script; clone_inode (moot's via) (aux via) for the clones  <main>_<tag>[_<tag>]"""
+    def cp(ps):
+        return "[" + "; ".join(str(I(p)) for p in ps) + "]" if ps else "(@nil N)"
+    fr = {f["name"]: f for f in spec["framers"]}
+    out = {names[k]: cp(parts_of(f["via"])) for k, f in fr.items()}
+    aux = {}
+    for f in spec["framers"]:
+        for x in f["frames"]:
+            if x["aux"]:
+                aux[f["name"]] = x["aux"]
+
+    def av(v):
+        return "ViaAbsent" if v == "" else "ViaMine" if v == "mine" else "(ViaGiven %s)" % cp(parts_of(v))
+    if "F0" in aux:
+        m0, t0, v0 = aux["F0"]
+        n0 = names["F0"] + "_" + names[t0]
+        out[n0] = "(clone_inode %s %s)" % (cp(parts_of(fr[m0]["via"])), av(v0))
+        if m0 in aux:
+            m1, t1, v1 = aux[m0]
+            out[n0 + "_" + names[t1]] = "(clone_inode %s %s)" % (cp(parts_of(fr[m1]["via"])), av(v1))
     return out
